@@ -269,7 +269,7 @@ func (*c03Prop) Gen(r *Rand, pl *Plan) Case {
 			c.Input = strings.Repeat("a", r.Range(4, 10)) + []string{"", "d", "b"}[r.Intn(3)]
 		}
 	} else {
-		c.G = genGrammar(r, &genOpts{MaxNodes: r.Range(3, size), Alphabet: alphabet, Trims: r.Chance(2, 3), MemoChance: r.Range(15, 70), Names: r.Chance(1, 2), Rich: r.Chance(1, 5)})
+		c.G = genGrammar(r, &genOpts{MaxNodes: r.Range(3, size), Alphabet: alphabet, Trims: r.Chance(2, 3), MemoChance: r.Range(15, 70), Names: r.Chance(1, 2), Rich: r.Chance(1, 5), Guards: r.Chance(1, 6)})
 		maxLen := 8
 		if size > 14 {
 			maxLen = 16
@@ -284,7 +284,7 @@ func (*c03Prop) Gen(r *Rand, pl *Plan) Case {
 		}
 		c.Input = c.G.genInput(r, alphabet, maxLen)
 	}
-	if !hasRich(c.G) && r.Chance(1, 6) {
+	if !hasRich(c.G) && !hasOp(c.G, "upanic") && r.Chance(1, 6) {
 		// the same grammar over a non-ASCII alphabet: byte offsets and rune counts differ
 		to := []string{"é", "世", "\U0001F600"}[r.Intn(3)]
 		c.G.translit('b', to)
@@ -406,12 +406,15 @@ func (g guardP) Parse(ctx *parsley.Context, lrc data.IntMap, pos parsley.Pos) (p
 	if g.inner {
 		// probe directly under Memoize
 		st.memoInner++
+		n, cp, err := g.p.Parse(ctx, lrc, pos)
+		// counted when the evaluation has an outcome: a run that ended in a panic (recovered
+		// by a guard further up) produced nothing a cache could hold
 		k := [2]int{g.idx, int(pos)}
 		st.once[k]++
 		if st.once[k] > 1 && st.onceViolation == "" {
 			st.onceViolation = fmt.Sprintf("memoised parser (grammar node %d) ran %d times at position %d within one parse", g.idx, st.once[k], pos)
 		}
-		return g.p.Parse(ctx, lrc, pos)
+		return n, cp, err
 	}
 	st.depth++
 	st.calls++
@@ -424,8 +427,8 @@ func (g guardP) Parse(ctx *parsley.Context, lrc data.IntMap, pos parsley.Pos) (p
 	if st.calls > st.maxCal {
 		panic(discard{"call-budget"})
 	}
+	defer func() { st.depth-- }() // (also when a panic passes through to a guard further up)
 	n, cp, err := g.p.Parse(ctx, lrc, pos)
-	st.depth--
 	if nl, ok := n.(ast.NodeList); ok && len(nl) > st.maxList {
 		panic(discard{"list-budget"})
 	}
@@ -529,6 +532,11 @@ func c03ParseOnceOpt(g *Grammar, input string, prefix int, memo, refMemo bool, e
 			}
 			if hasRich(g) {
 				o.discard = "literal-parser-panic"
+				return
+			}
+			if ub, ok := r.(userBoom); ok {
+				// the deliberately panicking user leaf, with no guard above it: what this build does
+				o.res, o.err, o.ctxErr = "PANIC "+string(ub), "-", "-"
 				return
 			}
 			if panicInLibrary() {
